@@ -754,7 +754,7 @@ pub fn gen_corpus_with(seed: u64, n_fam: usize, q_per_fam: usize, adv: bool) -> 
         gen::names_of(&base, &mut names_in);
         let mut fq = vec![];
         let mut qrng = Rng::new(derive(seed, "c12query", f as u64));
-        let g = QGen { names: &names_in, fancy: true, regex: true, ext: true };
+        let g = QGen { names: &names_in, fancy: true, regex: true, ext: true, safe_quotes: false };
         let mut k = 0;
         while fq.len() < q_per_fam && k < q_per_fam * 4 {
             k += 1;
